@@ -22,10 +22,18 @@ MANIFEST = dict(
          "from the first/last member and merges a short last bin (counts added, low of the predecessor, high of the last).  A per-bin array "
          "built for all bins at once by a segmented reduction over the index area (ufunc.reduceat with the bins' offsets) is given numpy's "
          "documented value: the reduction over the members for a non-empty bin, the element at the offset for an empty one, the rest of the "
-         "operand for the last one.  Finally the options are followed by data dependence from histogram() to Binner.dohist() and on to the "
+         "operand for the last one.  Where equal-occupancy binning does not go through the histogram engine but writes its results down directly, "
+         "the function is evaluated once per case of a case split that decides all its tests (mergelast on / off, last bin short / full, one / several "
+         "bins) with vectors over the bins as element terms (whole-vector arithmetic, numpy.bincount of the bin numbers int(arange(n)/nperbin), "
+         "numpy.cumsum, selections by numpy.nonzero / comparisons, gathers through the sort index, element / slice / selection stores): the counts must "
+         "be those of the ranks binned by nperbin, int((n-1)/nperbin)+1 of them; the reverse indices must have the engine's layout for the counts that "
+         "are stored (first offset nbin+1, offset behind bin k = nbin+1+cumulated count, index area = the limited sort index), low/high must be the "
+         "binned variable at the first / last rank of each bin; the last two counts are added and one bin dropped exactly in the case mergelast on, "
+         "last bin short, several bins.  Finally the options are followed by data dependence from histogram() to Binner.dohist() and on to the "
          "methods of Binner: a parameter fed a plain copy of an option must be fed the option of its own name, and no public option is cut off.",
     note="Not decided: numerical equality, the index arithmetic of the last-bin merge on the reverse indices. Trusted: numpy "
-         "reductions, sympy normaliser, the histogram engine's reverse-index layout (offsets 0..nbin, then the members bin by bin).",
+         "reductions, sympy normaliser, the histogram engine's reverse-index layout (offsets 0..nbin, then the members bin by bin); in the direct "
+         "form numpy.bincount / cumsum / nonzero and that the bin number int(r/nperbin) does not decrease with the rank r (bins hold consecutive ranks).",
     technique="static analysis: abstract interpretation over a symbolic term domain (reductions as uninterpreted functionals, arrays as guarded stores), "
               "special-case consistency by term rewriting, path conditions decided per scenario",
 )
@@ -393,6 +401,19 @@ class State:
         self.do_hist = []
         self.merges = []
         self.area_rev = None     # the reverse-index object whose index area was last selected as a whole
+        self.scen = None         # direct form: ordered substitution that decides the tests of the analysed function (one case of a case split)
+        self.snaps = {}          # direct form: symbol -> frozen vector it stands for (a vector with element stores, by content)
+        self._snapkeys = {}
+        self.bincounts = []      # direct form: the countings of bin numbers found
+
+    def snapshot(self, dv):
+        """the symbol that stands for the present content of a vector over the bins (equal content, equal symbol)"""
+        k = _dvkey(dv)
+        if k not in self._snapkeys:
+            sym = sp.Symbol("V%d" % (len(self._snapkeys) + 1))
+            self._snapkeys[k] = sym
+            self.snaps[sym] = dv.freeze()
+        return self._snapkeys[k]
 
 
 def _taint(v, seen=None):
@@ -402,7 +423,7 @@ def _taint(v, seen=None):
     seen.add(id(v))
     if isinstance(v, Vec):
         v.buf.tainted = True
-    elif isinstance(v, (Arr, RevObj)):
+    elif isinstance(v, (Arr, RevObj, DV)):
         v.tainted = True
     elif isinstance(v, dict):
         if isinstance(v, SelfDict):
@@ -521,7 +542,7 @@ class BEnv(symx.Env):
     def assign(self, t, v, st):
         if isinstance(t, ast.Subscript):
             base = self.ev(t.value)
-            if isinstance(base, (Arr, Vec, RevObj, SelfDict)):
+            if isinstance(base, (Arr, Vec, RevObj, SelfDict, DV)):
                 base.store(self.ev_index(t.slice), v, self.cur, self)
                 return
         symx.Env.assign(self, t, v, st)
@@ -533,6 +554,8 @@ class BEnv(symx.Env):
             return b.length()
         if isinstance(b, Arr):
             return b.n
+        if isinstance(b, DV):
+            return b.n if b.sel is None else None
         if isinstance(b, sp.Basic):
             if b == MEMBERS or b in self.bs.member_map.values() or _is_selection(b):
                 return NSEL
@@ -648,7 +671,7 @@ class BEnv(symx.Env):
             if nm == "append" and isinstance(recv, list) and len(c.args) == 1:
                 recv.append(self.ev(c.args[0]))
                 return None
-            if nm == "copy" and isinstance(recv, (Arr, Vec)):
+            if nm == "copy" and isinstance(recv, (Arr, Vec, DV)):
                 return recv.copy()
             if nm == "fill" and isinstance(recv, Arr) and len(c.args) == 1:
                 recv.store(slice(None), self.ev(c.args[0]), self.cur, self)
@@ -679,7 +702,7 @@ class BEnv(symx.Env):
                 for k2, v2 in self.vars.items():
                     if k2 == "self" or k2.startswith("self."):
                         bind[k2] = v2
-                env = BEnv(self.se, tgt, tgt.module, dict(bind), {}, depth=self.depth + 1)
+                env = type(self)(self.se, tgt, tgt.module, dict(bind), {}, depth=self.depth + 1)
                 for p in tgt.params:
                     pn = p.lstrip("*")
                     if pn not in env.vars and pn in tgt.defaults:
@@ -708,7 +731,7 @@ class BEnv(symx.Env):
             for k in c.keywords:
                 if k.arg:
                     bind[k.arg] = self.ev(k.value)
-            env = BEnv(self.se, tgt, tgt.module, dict(bind), {}, depth=self.depth + 1)
+            env = type(self)(self.se, tgt, tgt.module, dict(bind), {}, depth=self.depth + 1)
             for p in tgt.params:
                 pn = p.lstrip("*")
                 if pn not in env.vars and pn in tgt.defaults:
@@ -731,6 +754,383 @@ class BEnv(symx.Env):
         return symx.Env.call(self, c, stmt_level)
 
 
+# ---------------------------------------------------------------------------------------------------------------------------------
+# equal-occupancy binning written down directly (no histogram engine, no loop over the bins): vectors over the bins as element terms
+# ---------------------------------------------------------------------------------------------------------------------------------
+COUNTS = sp.Symbol("COUNTS")                                # COUNTS[k] = number of ranks r in 0..n-1 with floor(r / nperbin) == k
+NBIN = sp.Symbol("NBIN", positive=True, integer=True)       # their number: floor((n-1)/nperbin) + 1
+NSZ = sp.Symbol("NDATA", positive=True, integer=True)       # stands for the number of selected data where a sign is decided
+KB = sp.Symbol("k", integer=True, nonnegative=True)         # the generic element of a vector
+PP = sp.Symbol("p", integer=True, nonnegative=True)         # the generic position in the index area
+GAP, GAP2 = sp.symbols("gap gap2", integer=True, nonnegative=True)
+CUMUL = sp.Function("CUMUL")                                # CUMUL(v, k) = v[0] + ... + v[k]
+ARRAY_SYMS = (WSORT, SORTIDX, XALL, YALL, WALL)             # symbols that stand for whole arrays of the object
+
+
+def _dn(e):
+    """normal form for the direct form: index arithmetic as in _nidx, the number of data is an integer, the number of bins has a name,
+    and fancy indexing composes (a[b][j] == a[b[j]] for an index array b)"""
+    e = _nidx(e)
+    e = e.replace(lambda t: t.func == sp.floor and t.args[0].func == SIZE, lambda t: t.args[0])
+    n = SIZE(WSORT)
+    e = e.subs(sp.floor((n - 1) / NPB), NBIN - 1).subs(sp.ceiling(n / NPB), NBIN)
+    e = e.replace(lambda t: t.func == AT and len(t.args) == 2 and t.args[0].func == AT and len(t.args[0].args) == 2 and t.args[0].args[1] in ARRAY_SYMS,
+                  lambda t: AT(t.args[0].args[0], AT(t.args[0].args[1], t.args[1])))
+    return e
+
+
+def _bare_arrays(e):
+    """a whole array of the object occurs in the term other than under SIZE(...) or as the array an element is taken from"""
+    e = sp.sympify(e).replace(lambda t: t.func == SIZE, lambda t: sp.Dummy())
+    e = e.replace(lambda t: t.func == AT and t.args[0] in ARRAY_SYMS, lambda t: sp.Function("ELEMENT_OF_" + t.args[0].name)(*t.args[1:]))
+    return any(x in ARRAY_SYMS for x in e.free_symbols)
+
+
+def _eqd(a, b):
+    if a is None or b is None:
+        return False
+    try:
+        a, b = _dn(a), _dn(b)
+        return bool(a == b or sp.expand(a - b) == 0 or sp.simplify(a - b) == 0)
+    except Exception:
+        return False
+
+
+def _sgn(e, facts):
+    """+1: e >= 0 for certain, -1: e < 0 for certain, None: not decided (facts: what is known about the generic index)"""
+    try:
+        e = sp.expand(_dn(e).subs(SIZE(WSORT), NSZ).subs(facts or {}, simultaneous=True))
+    except Exception:
+        return None
+    if e.is_nonnegative:
+        return 1
+    if e.is_negative:
+        return -1
+    return None
+
+
+def _decide_seq(c, scen):
+    """truth of a test under an ordered substitution"""
+    if c is True or c is False:
+        return c
+    try:
+        c = _dn(c)
+        for a, b in scen or ():
+            c = c.subs(a, b)
+    except Exception:
+        return None
+    return _decide(c, {})
+
+
+def _dvkey(dv):
+    def vkey(v):
+        return ("dv",) + _dvkey(v) if isinstance(v, DV) else sp.srepr(v) if isinstance(v, sp.Basic) else repr(v)
+    return (sp.srepr(dv.elem) if dv.elem is not None else None, sp.srepr(dv.n) if dv.n is not None else None,
+            sp.srepr(dv.sel) if dv.sel is not None else None,
+            tuple((k, sp.srepr(a) if a is not None else None, sp.srepr(b) if b is not None else None, vkey(v)) for k, a, b, v in dv.stores))
+
+
+class DSel(symx.Mask):
+    """a selection of elements of a vector by a condition on the generic element (np.nonzero(v), np.where(v > 0), v != 0)"""
+
+    def __init__(self, cond, n):
+        symx.Mask.__init__(self, cond)
+        self.n = n
+
+
+class DV:
+    """a vector the analysed code builds as a whole: element k is `elem` (a term in the generic index), overlaid by the stores made
+    afterwards (single elements, slices, selections).  `sel` is set for a compressed selection v[w]: its elements are those of the
+    elements k of the underlying vector that satisfy sel, in order.  Views made by slicing share the stores."""
+
+    def __init__(self, bs, elem, n, sel=None, shared=None):
+        self.bs = bs
+        self.elem = elem
+        self.n = _dn(n) if n is not None else None
+        self.sel = sel
+        self.shared = shared if shared is not None else {"stores": [], "tainted": False}
+
+    def __repr__(self):
+        return "DV(%s, n=%s%s%s)" % (self.elem, self.n, ", sel=%s" % (self.sel,) if self.sel is not None else "", ", %d stores" % len(self.stores) if self.stores else "")
+
+    @property
+    def stores(self):
+        return self.shared["stores"]
+
+    @property
+    def tainted(self):
+        return self.shared["tainted"]
+
+    @tainted.setter
+    def tainted(self, v):
+        self.shared["tainted"] = v
+
+    def view(self, n):
+        return DV(self.bs, self.elem, n, self.sel, self.shared)
+
+    def freeze(self):
+        return DV(self.bs, self.elem, self.n, self.sel, {"stores": list(self.stores), "tainted": self.tainted})
+
+    copy = freeze
+
+    def _abs(self, j):
+        j = _dn(sp.sympify(j))
+        if j.is_number and j.is_negative:
+            if self.n is None:
+                raise Undecided("index from the end of a vector of unknown length")
+            j = _dn(self.n + j)
+        return j
+
+    def gen(self):
+        """the generic element as a term"""
+        if self.tainted:
+            raise Undecided("vector touched by statements outside the term domain")
+        if not self.stores:
+            if self.elem is None:
+                raise Undecided("vector of unknown content")
+            return self.elem
+        return AT(self.bs.snapshot(self), KB)
+
+    def vecsym(self):
+        """a symbol that names the present content"""
+        g = self.gen()
+        if g.func == AT and len(g.args) == 2 and g.args[1] == KB and isinstance(g.args[0], sp.Symbol):
+            return g.args[0]
+        return self.bs.snapshot(self)
+
+    def at(self, j, facts=None, scen=None):
+        """element j (a term; negative numbers count from the end).  facts: substitution that states what is known about the generic
+        index (decides whether j lies in a stored region); scen: decides the condition of a selection"""
+        if self.tainted:
+            raise Undecided("vector touched by statements outside the term domain")
+        if self.sel is not None:
+            raise Undecided("element of a compressed selection")
+        j = self._abs(j)
+        for kind, a, b, v in reversed(self.stores):
+            if kind == "elem":
+                if sp.expand(j - a) == 0:
+                    m = True
+                elif _sgn(j - a - 1, facts) == 1 or _sgn(a - j - 1, facts) == 1:
+                    m = False
+                else:
+                    m = None
+            elif kind == "slice":
+                s1, s2 = _sgn(j - a, facts), _sgn(b - 1 - j, facts)
+                m = True if (s1 == 1 and s2 == 1) else False if (s1 == -1 or s2 == -1) else None
+            else:
+                m = _decide(a.subs(KB, j), scen or {})
+            if m is None:
+                raise Undecided("whether element %s lies in the stored region %s %s:%s" % (j, kind, a, b))
+            if not m:
+                continue
+            if v is None:
+                raise Undecided("a value the analysis does not follow was stored at %s %s:%s" % (kind, a, b))
+            if isinstance(v, DV):
+                if kind == "slice":
+                    return v.at(j - a, facts, scen)
+                if v.stores or v.elem is None:
+                    raise Undecided("selection of a vector with stores")
+                return v.elem.subs(KB, j)
+            if v in ARRAY_SYMS:
+                return AT(v, _dn(j - a))
+            return v
+        if self.elem is None:
+            raise Undecided("vector of unknown content")
+        return self.elem.subs(KB, j)
+
+    def store(self, idx, v, cond, env):
+        if cond != sp.true or self.sel is not None:
+            self.tainted = True            # (every test is decided in a case of the case split: a store under an open condition is not followed)
+            return
+        if isinstance(v, DV):
+            v = v.freeze()
+        elif isinstance(v, (int, float)) and not isinstance(v, bool):
+            v = sp.sympify(v)
+        elif isinstance(v, sp.Basic):
+            if v not in ARRAY_SYMS and _bare_arrays(v):
+                v = None
+        else:
+            v = None
+        scalar = isinstance(v, sp.Basic) and v not in ARRAY_SYMS
+        try:
+            if isinstance(idx, slice):
+                if idx.step is not None:
+                    self.tainted = True
+                    return
+                lo = sp.Integer(0) if idx.start is None else self._abs(idx.start)
+                hi = self.n if idx.stop is None else self._abs(idx.stop)
+                if hi is None or (isinstance(v, DV) and v.sel is not None):
+                    self.tainted = True
+                    return
+                self.stores.append(("slice", lo, hi, v))
+            elif isinstance(idx, DSel):
+                if not _eqd(idx.n, self.n):
+                    self.tainted = True
+                    return
+                aligned = scalar or (isinstance(v, DV) and v.sel is not None and v.sel == idx.cond)
+                self.stores.append(("mask", idx.cond, None, v if aligned else None))
+            elif isinstance(idx, sp.Basic) and idx == GEN:
+                # one store per iteration of a loop over the bins: element k gets the value with the loop variable at k
+                self.stores.append(("mask", sp.true, None, DV(self.bs, v.subs(GEN, KB), self.n, sp.true) if scalar else None))
+            elif symx._is_expr(idx):
+                self.stores.append(("elem", self._abs(idx), None, v if scalar else None))
+            else:
+                self.tainted = True
+        except Undecided:
+            self.tainted = True
+
+
+class DEnv(BEnv):
+    """BEnv with vectors over the bins built as a whole, and with the tests of the analysed function decided by the case at hand"""
+
+    def exec_if(self, st, cond):
+        t = self.truth(st.test)
+        if isinstance(t, sp.Basic) and t not in (sp.true, sp.false) and self.bs.scen is not None:
+            r = _decide_seq(t, self.bs.scen)
+            if r is None:
+                raise symx.Unsupported("C14: the test `%s` is not decided by the case split (last bin short / full, one / several bins) at %s"
+                                       % (norm(st.test), self.where(st)))
+            return self.exec_body(st.body if r else st.orelse, cond)
+        return BEnv.exec_if(self, st, cond)
+
+    def _dv(self, elem, n, sel=None):
+        return DV(self.bs, elem, n, sel)
+
+    def binop(self, op, a, b, node):
+        if isinstance(a, DV) or isinstance(b, DV):
+            try:
+                dv = a if isinstance(a, DV) else b
+                if isinstance(a, DV) and isinstance(b, DV):
+                    if a.sel != b.sel or not _eqd(a.n, b.n):
+                        return symx.Opaque("vectors of different extent")
+                    ea, eb = a.gen(), b.gen()
+                else:
+                    o = b if dv is a else a
+                    if not symx._is_expr(o) or _bare_arrays(o):
+                        return symx.Opaque("vector arithmetic")
+                    ea, eb = (a.gen(), o) if dv is a else (o, b.gen())
+                return self._dv(symx.Env.binop(self, op, ea, eb, node), dv.n, dv.sel)
+            except Undecided as e:
+                return symx.Opaque(str(e))
+        return BEnv.binop(self, op, a, b, node)
+
+    def compare(self, e):
+        if len(e.ops) == 1:
+            a, b = self.ev(e.left), self.ev(e.comparators[0])
+            if isinstance(a, DV) or isinstance(b, DV):
+                rels = {ast.Lt: sp.Lt, ast.LtE: sp.Le, ast.Gt: sp.Gt, ast.GtE: sp.Ge, ast.Eq: sp.Eq, ast.NotEq: sp.Ne}
+                dv = a if isinstance(a, DV) else b
+                o = b if dv is a else a
+                if type(e.ops[0]) not in rels or isinstance(o, DV) or not symx._is_expr(o) or dv.sel is not None:
+                    return symx.Opaque("cmp(%s)" % norm(e))
+                try:
+                    g = dv.gen()
+                except Undecided as ex:
+                    return symx.Opaque(str(ex))
+                return DSel(rels[type(e.ops[0])](*((g, sp.sympify(o)) if dv is a else (sp.sympify(o), g))), dv.n)
+        return BEnv.compare(self, e)
+
+    def subscript(self, base, idx, e):
+        try:
+            if isinstance(base, DV):
+                if isinstance(idx, DSel):
+                    if base.sel is None and _eqd(base.n, idx.n):
+                        return self._dv(base.gen(), base.n, idx.cond)
+                elif isinstance(idx, slice):
+                    if idx.step is None and (idx.start is None or _eqd(idx.start, 0)) and base.sel is None:
+                        return base if idx.stop is None else base.view(base._abs(idx.stop))
+                elif symx._is_expr(idx):
+                    return base.at(idx)
+                return symx.Opaque("element(s) of a vector")
+            if isinstance(idx, DV):
+                ok = isinstance(base, sp.Basic) and (base in ARRAY_SYMS or (base.func == AT and len(base.args) == 2 and all(x in ARRAY_SYMS for x in base.args)))
+                return self._dv(AT(base, idx.gen()), idx.n, idx.sel) if ok else symx.Opaque("gather")
+        except Undecided as ex:
+            return symx.Opaque(str(ex))
+        return BEnv.subscript(self, base, idx, e)
+
+    def _bincount(self, c, full):
+        """numpy.bincount(x, minlength=m) of the bin numbers x = floor(arange(n) / d): recognised as the occupation numbers COUNTS when
+        n is the number of selected data and d the requested occupancy; its length is max(m, largest bin number + 1)"""
+        x = self.ev(c.args[0]) if c.args else None
+        ml = c.args[2] if len(c.args) > 2 else kwarg(c, "minlength")
+        if len(c.args) > 1 and not (isinstance(c.args[1], ast.Constant) and c.args[1].value is None):
+            return symx.Opaque(full)
+        if any(k.arg not in ("minlength",) for k in c.keywords) or not isinstance(x, sp.Basic):
+            return symx.Opaque(full)
+        x = _dn(x)
+        rec = {"where": self.where(c), "x": x, "m": None, "d": None, "len": None, "lenmsg": ""}
+        self.bs.bincounts.append(rec)
+        ar = [t for t in x.atoms(sp.core.function.AppliedUndef) if t.func == ARANGE]
+        if x.func != sp.floor or len(ar) != 1 or len(ar[0].args) != 1:
+            return symx.Opaque(full)
+        d = sp.simplify(ar[0] / x.args[0])
+        if d.has(ARANGE):
+            return symx.Opaque(full)
+        rec["m"], rec["d"] = ar[0].args[0], d
+        if not (_eqd(rec["m"], SIZE(WSORT)) and _eqd(d, NPB)):
+            return symx.Opaque(full)
+        n = NBIN
+        rec["len"] = True
+        if ml is not None:
+            m = self.ev(ml)
+            if not symx._is_expr(m):
+                rec["len"] = None
+                return symx.Opaque(full)
+            df = sp.simplify(_dn(sp.sympify(m)) - NBIN)
+            if not df.is_number:
+                # int(n/nperbin) is int((n-1)/nperbin) + 1 when n is a multiple of nperbin (DIV = 1) and equal to it otherwise (DIV = 0)
+                div = sp.Symbol("DIV")
+                dd = sp.simplify(df.subs(sp.floor(SIZE(WSORT) / NPB), NBIN - 1 + div))
+                lo, hi = dd.subs(div, 0), dd.subs(div, 1)
+                if lo.is_number and hi.is_number and lo <= 0 < hi:
+                    rec["len"], rec["lenmsg"] = False, "the counts are padded to %s bins: one too many when the number of data is a multiple of nperbin" % _dn(sp.sympify(m))
+                    return symx.Opaque(full)
+                if lo.is_number and hi.is_number and lo <= 0 and hi <= 0:
+                    df = sp.Integer(0)
+            if df.is_number and df > 0:
+                rec["len"], rec["lenmsg"], n = False, "the counts are padded to %s bins" % _dn(sp.sympify(m)), _dn(sp.sympify(m))
+            elif not (df == 0 or (df.is_number and df < 0)):
+                rec["len"], rec["lenmsg"] = None, "minlength %s not compared with the number of bins" % (m,)
+                return symx.Opaque(full)
+        return self._dv(AT(COUNTS, KB), n)
+
+    def call(self, c, stmt_level=False):
+        f = c.func
+        nm = call_name(c)
+        d = dotted_name(f)
+        full = self.se.repo.resolve_name(self.mod, d) if d else ""
+        isnp = full.startswith("numpy.")
+        if isnp and nm in ("zeros", "ones", "empty", "full") and c.args:
+            n = self.ev(c.args[0])
+            if symx._is_expr(n) and not sp.sympify(n).is_number:
+                if nm == "full":
+                    fv = c.args[1] if len(c.args) > 1 else kwarg(c, "fill_value")
+                    init = self.ev(fv) if fv is not None else None
+                else:
+                    init = {"zeros": sp.Integer(0), "ones": sp.Integer(1), "empty": sp.Symbol("UNINITIALISED")}[nm]
+                if symx._is_expr(init):
+                    return self._dv(sp.sympify(init), sp.sympify(n))
+        if full == "numpy.bincount":
+            return self._bincount(c, full)
+        recv = None
+        if isnp and nm in ("cumsum", "nonzero", "flatnonzero") and len(c.args) == 1 and not c.keywords:
+            recv = self.ev(c.args[0])
+        elif not isnp and isinstance(f, ast.Attribute) and nm in ("cumsum", "nonzero") and not c.args and not c.keywords \
+                and isinstance(f.value, (ast.Name, ast.Subscript, ast.Attribute)):
+            recv = self.ev(f.value)
+        if isinstance(recv, DV):
+            try:
+                if recv.sel is not None:
+                    return symx.Opaque(nm)
+                if nm == "cumsum":
+                    return self._dv(CUMUL(recv.vecsym(), KB), recv.n)
+                return DSel(sp.Ne(recv.gen(), 0), recv.n)
+            except Undecided as ex:
+                return symx.Opaque(str(ex))
+        return BEnv.call(self, c, stmt_level)
+
+
 def _new_eval(repo, member_map=None, intercept=None):
     se = symx.SymEval(repo, opaque_tests=False)
     se.assume = {"call:isscalar": True, "text:not np.isscalar(werr) and len(werr) < ndim": False}
@@ -747,10 +1147,11 @@ class Run:
         self.error = None
 
 
-def _execute(repo, fi, sd, extra_vars, member_map=None, intercept=None):
+def _execute(repo, fi, sd, extra_vars, member_map=None, intercept=None, envcls=None, scen=None):
     r = Run()
     se = _new_eval(repo, member_map, intercept)
-    env = BEnv(se, fi, fi.module, {}, {})
+    se.bs.scen = scen
+    env = (envcls or BEnv)(se, fi, fi.module, {}, {})
     env.vars.update({"self": sd, "self.x": XALL, "self.y": YALL, "self.weights": WALL, "self.sort_index": SORTIDX,
                      "self.dmin": DMIN, "self.dmax": DMAX, "self.xpref": XP})
     env.vars.update(extra_vars)
@@ -760,7 +1161,7 @@ def _execute(repo, fi, sd, extra_vars, member_map=None, intercept=None):
     r.sd, r.bs = sd, se.bs
     try:
         env.exec_body(fi.node.body, sp.true)
-    except (AnalysisError, RecursionError, TypeError, ValueError, KeyError, AttributeError, IndexError) as e:
+    except (AnalysisError, Undecided, RecursionError, TypeError, ValueError, KeyError, AttributeError, IndexError) as e:
         r.error = "%s: %s" % (type(e).__name__, e)
     return r
 
@@ -1151,6 +1552,268 @@ def _hist_by_num_run(repo, fi, mergelast):
     return _execute(repo, fi, sd, {"nperbin": NPB, "mergelast": mergelast}, intercept={"_do_hist": do_hist, "_merge_last": merge_last})
 
 
+def _merge_last_rules(chk, repo, where, called=True):
+    """the two rules about the merge of a short last bin, decided on the method that does it"""
+    n = SIZE(WSORT)
+    if not repo.has(ST + "Binner._merge_last") or not called:
+        why = ("no method _merge_last" if not repo.has(ST + "Binner._merge_last") else "_merge_last is not called") + \
+              ", and a merge written out after the call of the histogram engine is not followed"
+        chk.ob("R14.5", "_merge_last::merged-bin-count-and-limits", None, where,
+               "merged bin: one bin fewer, counts added, low from the predecessor, high from the last bin (%s)" % why)
+        chk.ob("R14.5", "_merge_last::needs-two-bins", None, where, "nothing is merged when there is only one bin, and two are enough (%s)" % why)
+        return
+    ml = repo.func(ST + "Binner._merge_last")
+    chk.analysed_unit(ml.qualname)
+    sd = SelfDict({"hist": Vec(HIST), "low": Vec(LOW, n=SIZE(HIST)), "high": Vec(HIGH, n=SIZE(HIST)), "rev": Vec(REV)})     # one low / high per bin
+    rm = _execute(repo, ml, sd, {})
+    res, msg = [], ""
+    want = {"hist": (HIST, AT(HIST, -2) + AT(HIST, -1)), "low": (LOW, AT(LOW, -2)), "high": (HIGH, AT(HIGH, -1))}
+    for q, (sym, w) in want.items():
+        v = rm.sd.get(q)
+        if rm.error or rm.sd.tainted or not isinstance(v, Vec) or v.tainted or v.buf.sym != sym or not _logged(rm, q):
+            res.append(None)
+            msg = msg or (rm.error or "the new %s is not an array the analysis followed (%r) %s" % (q, v, rm.bs.skipped[:2]))[:200]
+            continue
+        if v.buf.other:
+            res.append(None)
+            msg = msg or "%s: store at an index the analysis does not follow (%s)" % (q, v.buf.other[0][0])
+            continue
+        try:
+            # the values the function leaves when it does merge (two or more bins)
+            cells = {k: _resolve(val, {SIZE(HIST): MPOS + 1}) for k, val in v.buf.cells.items()}
+            lastv = _resolve(v.read(-1), {SIZE(HIST): MPOS + 1})
+        except Undecided as e:
+            res.append(None)
+            msg = msg or "%s: %s" % (q, e)
+            continue
+        ok = v.drop == 1 and _eq(lastv, w) and all(_eq(val, AT(sym, k)) for k, val in cells.items() if k != -1 - v.drop)
+        res.append(bool(ok))
+        if not ok:
+            msg = "new %s drops %d element(s) and ends with %s, expected one and %s" % (q, v.drop, lastv, w)
+    chk.ob("R14.5", "_merge_last::merged-bin-count-and-limits", _verdict(res), ml.where(),
+           "merged bin: one bin fewer, counts added, low from the predecessor, high from the last bin (%s)" % (msg or "as found"))
+    res, msg = [], ""
+    if rm.error or rm.sd.tainted or not rm.sd.log:
+        res.append(None)
+        msg = (rm.error or "no store followed")[:200]
+    for k, v, c in rm.sd.log:
+        t1, t2, t3 = _decide(c, {SIZE(HIST): 1}), _decide(c, {SIZE(HIST): 2}), _decide(c, {SIZE(HIST): MPOS + 2})
+        res += [None if t1 is None else (not t1), t2, t3]
+        if not (t1 is False and t2 and t3):
+            msg = "%s is stored under %s" % (k, c)
+    chk.ob("R14.5", "_merge_last::needs-two-bins", _verdict(res), ml.where(), "nothing is merged when there is only one bin, and two are enough (%s)" % (msg or "as found"))
+
+
+# ---- the direct form: counts, reverse indices and limits written down from the ranks, no histogram engine --------------------------
+DCASES = [(ml, short, many) for ml in (True, False) for short in (True, False) for many in (True, False)]
+
+
+def _direct_run(repo, fi, ml, short, many):
+    """one case of the case split that decides every test of the function: mergelast on / off, last bin short / full, several bins / one"""
+    def do_hist(env, c, args, kws):
+        env.bs.do_hist.append(({}, env.cur, None))
+        return symx.Opaque("histogram engine")
+
+    def merge_last(env, c, args, kws):
+        env.bs.merges.append((env.cur, dict(env.vars["self"])))
+        return None
+
+    scen = [(AT(COUNTS, NBIN - 1), (NPB - HPOS) if short else NPB), (NBIN, (MPOS + 1) if many else sp.Integer(1))]
+    intercept = {"_do_hist": do_hist}
+    if repo.has(ST + "Binner._merge_last"):
+        intercept["_merge_last"] = merge_last
+    return _execute(repo, fi, SelfDict({"wsort": WSORT}), {"nperbin": NPB, "mergelast": ml}, intercept=intercept, envcls=DEnv, scen=scen)
+
+
+def _dfinal(run):
+    """(the vectors the function leaves in the object, reason why they cannot be judged)"""
+    if run.error:
+        return None, "the function could not be evaluated (%s)" % run.error[:160]
+    if run.sd.tainted:
+        return None, "statements outside the term domain touch the object: %s" % (run.bs.skipped[:2],)
+    out = {}
+    for q in ("hist", "rev", "low", "high"):
+        v = run.sd.get(q) if _logged(run, q) else None
+        if not isinstance(v, DV):
+            return None, "%s is not a vector the analysis followed (%r) %s" % (q, v, run.bs.skipped[:2])
+        if v.tainted or v.sel is not None or v.n is None:
+            return None, "%s: statements outside the term domain touch the vector, or its extent is not known %s" % (q, run.bs.skipped[:2])
+        out[q] = v
+    return out, ""
+
+
+def _case_name(case):
+    return "mergelast %s, last bin %s, %s" % ("on" if case[0] else "off", "short" if case[1] else "full", "several bins" if case[2] else "one bin")
+
+
+def _direct_layout(f):
+    """the reverse indices and the limits a run leaves, against the counts it leaves: list of (True / False / None, text)"""
+    out = []
+    hist, rev, low, high = f["hist"], f["rev"], f["low"], f["high"]
+    n = SIZE(WSORT)
+    L = hist.n
+    try:
+        V = hist.vecsym()
+    except Undecided as e:
+        return [(None, "counts: %s" % e)]
+    c = sp.simplify(_dn(L - NBIN))
+    if not c.is_Integer:
+        return [(None, "the number of bins %s is not compared with %s" % (L, NBIN))]
+    inbin = {NBIN: KB + 1 + GAP - c}                # k is one of the bins 0 .. L-1
+    inarea = {NSZ: PP + 1 + GAP2}                   # p is one of the positions 0 .. n-1
+    nonempty = {AT(V, KB): HPOS}
+    first, last = CUMUL(V, KB) - AT(V, KB), CUMUL(V, KB) - 1      # ranks of the first / last member of bin k
+    items = [
+        ("the reverse indices have %s elements", lambda: rev.n, L + 1 + n),
+        ("the first offset rev[0] is %s", lambda: rev.at(0), L + 1),
+        ("the offset behind bin k, rev[k+1], is %s", lambda: rev.at(KB + 1, inbin), L + 1 + CUMUL(V, KB)),
+        ("position p of the index area, rev[nbin+1+p], holds %s", lambda: rev.at(L + 1 + PP, inarea), AT(WSORT, PP)),
+        ("low has %s elements", lambda: low.n, L),
+        ("high has %s elements", lambda: high.n, L),
+        ("low of a non-empty bin k is %s", lambda: low.at(KB, inbin, nonempty), AT(XALL, AT(WSORT, first))),
+        ("high of a non-empty bin k is %s", lambda: high.at(KB, inbin, nonempty), AT(XALL, AT(WSORT, last))),
+    ]
+    for text, get, want in items:
+        try:
+            got = get()
+        except Undecided as e:
+            out.append((None, (text % want) + ": not decided: %s" % e))
+            continue
+        ok = _eqd(got, want)
+        out.append((ok, "" if ok else (text % _dn(want)) + ", found %s" % (_dn(got),)))
+    return out
+
+
+def _equal_occupancy_direct(chk, repo, fi):
+    where = fi.where()
+    runs = {case: _direct_run(repo, fi, *case) for case in DCASES}
+    finals = {case: _dfinal(r) for case, r in runs.items()}
+    engine = any(r.bs.do_hist for r in runs.values())
+    method = any(r.bs.merges for r in runs.values())            # the merge is done by the method _merge_last
+
+    def first_msg(pairs):
+        return next((m for ok, m in pairs if ok is False and m), "") or next((m for ok, m in pairs if ok is None and m), "")
+
+    # the counts
+    pairs = []
+    for case, r in runs.items():
+        if r.error or engine:
+            pairs.append((None, (r.error or "the histogram engine is called")[:200]))
+            continue
+        if len(r.bs.bincounts) != 1:
+            pairs.append((None, "%d countings of bin numbers found %s" % (len(r.bs.bincounts), r.bs.skipped[:2])))
+            continue
+        bc = r.bs.bincounts[0]
+        if bc["m"] is None:
+            pairs.append((None, "the bin numbers %s are not of the form int(arange(n)/d)" % (bc["x"],)))
+            continue
+        ok = _eqd(bc["m"], SIZE(WSORT))
+        pairs.append((ok, "" if ok else "%s ranks are binned, expected all %s selected data" % (bc["m"], SIZE(WSORT))))
+        ok = _eqd(bc["d"], NPB)
+        pairs.append((ok, "" if ok else "rank r goes to bin int(r/%s), expected int(r/nperbin)" % (bc["d"],)))
+        pairs.append((bc["len"], bc["lenmsg"]))
+        f, why = finals[case]
+        if f is None:
+            pairs.append((None, why))
+        else:
+            root = f["hist"].elem is not None and _eqd(f["hist"].elem, AT(COUNTS, KB))
+            pairs.append((True if root else None, "" if root else "the stored counts are not the counted ranks (%r)" % (f["hist"],)))
+    chk.ob("R14.5", "_hist_by_num::positions-binned-by-count", _verdict([p[0] for p in pairs]), where,
+           "sorted positions 0..n-1 are histogrammed with bin size nperbin into int((n-1)/nperbin)+1 bins, with reverse indices: every bin gets "
+           "nperbin consecutive sorted data (%s)" % (first_msg(pairs) or "as found: counted directly, rank r in bin int(r/nperbin)"))
+
+    # reverse indices and limits, against the counts that are stored
+    layout = {}
+    for case, (f, why) in finals.items():
+        layout[case] = [(None, why)] if f is None else [(ok, ("%s: %s" % (_case_name(case), m)) if m else "") for ok, m in _direct_layout(f)]
+    pairs = [p for case in DCASES for p in layout[case]]
+    chk.ob("R14.5", "_hist_by_num::reverse-indices-in-original-frame", _verdict([p[0] for p in pairs]), where,
+           "each bin's sorted positions are mapped through the (limited) sort index to indices of the original array and written back; low/high are "
+           "the first/last member's values (%s)" % (first_msg(pairs) or "as found: offsets from the cumulated counts, index area = limited sort index"))
+
+    # when the last bin is merged
+    def merged(case):
+        """True: the run leaves one bin fewer than were counted; False: as many; None: not decided"""
+        f, why = finals[case]
+        if f is None:
+            return None, why
+        if _eqd(f["hist"].n, NBIN - 1):
+            return True, ""
+        if _eqd(f["hist"].n, NBIN):
+            return False, ""
+        return None, "%s bins are left" % (f["hist"].n,)
+
+    pairs = []
+    for case in DCASES:
+        ml, short, many = case
+        r = runs[case]
+        if r.error:
+            pairs.append((None, r.error[:200]))
+        elif method:
+            # the method decides itself what to do with a single bin
+            called = len(r.bs.merges)
+            want = ml and short
+            if want and not many:
+                continue
+            conds = [_decide_seq(c, r.bs.scen) for c, _ in r.bs.merges]
+            ok = None if any(x is None for x in conds) else (sum(1 for x in conds if x) == (1 if want else 0))
+            pairs.append((ok, "" if ok else "%s: %d call(s) of the merge" % (_case_name(case), called)))
+        else:
+            m, why = merged(case)
+            want = ml and short and many
+            pairs.append((None if m is None else (m == want), "%s: %s" % (_case_name(case), why or ("the last bin is merged" if m else "the last bin is not merged"))))
+    chk.ob("R14.5", "_hist_by_num::merge-condition", _verdict([p[0] for p in pairs]), where,
+           "the last bin is merged exactly when it is short and mergelast is on (%s)" % (first_msg([p for p in pairs if p[0] is not True]) or "as found"))
+
+    # the merged bin
+    if method:
+        _merge_last_rules(chk, repo, where)
+    else:
+        case = (True, True, True)
+        f, why = finals[case]
+        pairs = []
+        if f is None:
+            pairs.append((None, why))
+        else:
+            h = f["hist"]
+            m, why = merged(case)
+            pairs.append((m, why or "the number of bins is unchanged"))
+            if m:
+                try:
+                    body = h.at(KB, {NBIN: KB + 3 + GAP})              # k is one of the bins in front of the merged one
+                    ok = _eqd(body, AT(COUNTS, KB))
+                    pairs.append((ok, "" if ok else "the count of a bin in front of the merged one is %s" % (body,)))
+                    lastv = h.at(-1)
+                    ok = _eqd(lastv, AT(COUNTS, NBIN - 2) + AT(COUNTS, NBIN - 1))
+                    pairs.append((ok, "" if ok else "the merged bin counts %s, expected %s" % (lastv, AT(COUNTS, NBIN - 2) + AT(COUNTS, NBIN - 1))))
+                except Undecided as e:
+                    pairs.append((None, "counts after the merge: %s" % e))
+            pairs += layout[case]
+        chk.ob("R14.5", "_merge_last::merged-bin-count-and-limits", _verdict([p[0] for p in pairs]), where,
+               "merged bin: one bin fewer, counts added, low from the predecessor, high from the last bin (%s)"
+               % (first_msg(pairs) or "as found: the counts are merged first, offsets and limits follow from the merged counts"))
+        pairs = []
+        for case, want in (((True, True, False), False), ((True, True, True), True)):
+            m, why = merged(case)
+            pairs.append((None if m is None else (m == want), "%s: %s" % (_case_name(case), why or ("merged" if m else "not merged"))))
+        chk.ob("R14.5", "_merge_last::needs-two-bins", _verdict([p[0] for p in pairs]), where,
+               "nothing is merged when there is only one bin, and two are enough (%s)" % (first_msg([p for p in pairs if p[0] is not True]) or "as found"))
+
+    # results stored
+    pairs = []
+    for case, r in runs.items():
+        f, why = finals[case]
+        if f is None:
+            pairs.append((None, why))
+            continue
+        for state in [r.sd] + [m[1] for m in r.bs.merges]:
+            h, v, npb = state.get("hist"), state.get("rev"), state.get("nperbin")
+            ok = isinstance(h, DV) and isinstance(v, DV) and isinstance(npb, sp.Basic) and npb == NPB
+            pairs.append((bool(ok), "" if ok else "hist=%r rev=%r nperbin=%r" % (h, v, npb)))
+    chk.ob("R14.5", "_hist_by_num::results-stored", _verdict([p[0] for p in pairs]), where,
+           "hist / rev / nperbin are stored, before a merge reads them (%s)" % (first_msg(pairs) or "as found"))
+
+
 def equal_occupancy(chk, repo):
     fi = repo.func(ST + "Binner._hist_by_num")
     chk.analysed_unit(fi.qualname)
@@ -1159,6 +1822,9 @@ def equal_occupancy(chk, repo):
     roff = _hist_by_num_run(repo, fi, False)
     both = (ron, roff)
     n = SIZE(WSORT)
+    if not ron.bs.do_hist and not roff.bs.do_hist:
+        # the histogram engine is not used: counts, reverse indices and limits are written down directly
+        return _equal_occupancy_direct(chk, repo, fi)
 
     # the engine call
     res, msg = [], ""
@@ -1264,47 +1930,7 @@ def equal_occupancy(chk, repo):
                 msg = "with mergelast off the merge happens under %s" % (c,)
     chk.ob("R14.5", "_hist_by_num::merge-condition", _verdict(res), where, "the last bin is merged exactly when it is short and mergelast is on (%s)" % (msg or "as found"))
 
-    # _merge_last
-    ml = repo.func(ST + "Binner._merge_last")
-    chk.analysed_unit(ml.qualname)
-    sd = SelfDict({"hist": Vec(HIST), "low": Vec(LOW, n=SIZE(HIST)), "high": Vec(HIGH, n=SIZE(HIST)), "rev": Vec(REV)})     # one low / high per bin
-    rm = _execute(repo, ml, sd, {})
-    res, msg = [], ""
-    want = {"hist": (HIST, AT(HIST, -2) + AT(HIST, -1)), "low": (LOW, AT(LOW, -2)), "high": (HIGH, AT(HIGH, -1))}
-    for q, (sym, w) in want.items():
-        v = rm.sd.get(q)
-        if rm.error or rm.sd.tainted or not isinstance(v, Vec) or v.tainted or v.buf.sym != sym or not _logged(rm, q):
-            res.append(None)
-            msg = msg or (rm.error or "the new %s is not an array the analysis followed (%r) %s" % (q, v, rm.bs.skipped[:2]))[:200]
-            continue
-        if v.buf.other:
-            res.append(None)
-            msg = msg or "%s: store at an index the analysis does not follow (%s)" % (q, v.buf.other[0][0])
-            continue
-        try:
-            # the values the function leaves when it does merge (two or more bins)
-            cells = {k: _resolve(val, {SIZE(HIST): MPOS + 1}) for k, val in v.buf.cells.items()}
-            lastv = _resolve(v.read(-1), {SIZE(HIST): MPOS + 1})
-        except Undecided as e:
-            res.append(None)
-            msg = msg or "%s: %s" % (q, e)
-            continue
-        ok = v.drop == 1 and _eq(lastv, w) and all(_eq(val, AT(sym, k)) for k, val in cells.items() if k != -1 - v.drop)
-        res.append(bool(ok))
-        if not ok:
-            msg = "new %s drops %d element(s) and ends with %s, expected one and %s" % (q, v.drop, lastv, w)
-    chk.ob("R14.5", "_merge_last::merged-bin-count-and-limits", _verdict(res), ml.where(),
-           "merged bin: one bin fewer, counts added, low from the predecessor, high from the last bin (%s)" % (msg or "as found"))
-    res, msg = [], ""
-    if rm.error or rm.sd.tainted or not rm.sd.log:
-        res.append(None)
-        msg = (rm.error or "no store followed")[:200]
-    for k, v, c in rm.sd.log:
-        t1, t2, t3 = _decide(c, {SIZE(HIST): 1}), _decide(c, {SIZE(HIST): 2}), _decide(c, {SIZE(HIST): MPOS + 2})
-        res += [None if t1 is None else (not t1), t2, t3]
-        if not (t1 is False and t2 and t3):
-            msg = "%s is stored under %s" % (k, c)
-    chk.ob("R14.5", "_merge_last::needs-two-bins", _verdict(res), ml.where(), "nothing is merged when there is only one bin, and two are enough (%s)" % (msg or "as found"))
+    _merge_last_rules(chk, repo, where, called=bool(ron.bs.merges or roff.bs.merges) or not repo.has(ST + "Binner._merge_last") or bool(ron.error or roff.error))
 
     # results stored (before the merge reads them)
     res, msg = [], ""
